@@ -1,107 +1,153 @@
-"""Fork-free boolean combinators for oracles (DESIGN 2.4b).
+"""Fork-free boolean / integer combinators for oracles (DESIGN 2.4b).
 
 Under CrossHair ``and`` / ``or`` / ``not`` / ``if`` on a symbolic bool fork the
-path; ``&`` / ``|`` / ``==`` and arithmetic on symbolic bools do not.  ``~`` is
-integer inversion (``~True == -2``: truthy) and must never be used; these
-helpers keep oracles to one solver query per path and check their arguments.
+path, and so do several innocent-looking operator forms (``True & sym``,
+``sym == False``, ``sym * 1`` were measured to fork).  These helpers therefore
+build the z3 term directly from the operands' SMT expressions: one symbolic
+value out, no path split, exactly one solver query per path for the whole
+oracle.  ``~`` must never be used on bools (integer inversion, ``~True == -2``).
 
 All helpers also work on plain Python bools/ints (replay mode)."""
 
+try:  # analysis mode
+    import z3
+    from crosshair.libimpl.builtinslib import SymbolicBool, SymbolicInt
+    from crosshair.tracers import NoTracing
 
-def _b(x):
-    """type check: python bool or symbolic bool only"""
+    HAVE_CH = True
+except ImportError:  # pragma: no cover - plain mode without crosshair
+    HAVE_CH = False
+
+
+def _kind(x):
+    """'cb' concrete bool, 'sb' symbolic bool, 'ci' concrete int, 'si' symbolic int, None other"""
     if x is True or x is False:
-        return x
-    try:
-        from crosshair.tracers import NoTracing
-        from crosshair.libimpl.builtinslib import SymbolicBool
-    except ImportError:
-        raise AssertionError(f"non-boolean {x!r} in boolean combinator")
-    with NoTracing():
-        ok = isinstance(x, SymbolicBool)
-        tn = type(x).__name__
-    if not ok:
-        raise AssertionError(f"non-boolean ({tn}) in boolean combinator")
-    return x
+        return "cb"
+    if type(x) is int:
+        return "ci"
+    if HAVE_CH:
+        if isinstance(x, SymbolicBool):
+            return "sb"
+        if isinstance(x, SymbolicInt):
+            return "si"
+    return None
+
+
+def _bool_terms(xs, what):
+    """under NoTracing: split operands into concrete bools and z3 terms"""
+    conc, terms = [], []
+    for x in xs:
+        k = _kind(x)
+        if k == "cb":
+            conc.append(x)
+        elif k == "sb":
+            terms.append(x.var)
+        else:
+            raise AssertionError(f"non-boolean operand ({type(x).__name__}) in {what}")
+    return conc, terms
 
 
 def AND(*xs):
-    r = True
-    for x in xs:
-        r = r & _b(x)
-    return r
+    if not HAVE_CH:
+        return all(xs)
+    with NoTracing():
+        conc, terms = _bool_terms(xs, "AND")
+        if not all(conc):
+            return False
+        if not terms:
+            return True
+        return SymbolicBool(z3.And(*terms) if len(terms) > 1 else terms[0])
 
 
 def OR(*xs):
-    r = False
-    for x in xs:
-        r = r | _b(x)
-    return r
+    if not HAVE_CH:
+        return any(xs)
+    with NoTracing():
+        conc, terms = _bool_terms(xs, "OR")
+        if any(conc):
+            return True
+        if not terms:
+            return False
+        return SymbolicBool(z3.Or(*terms) if len(terms) > 1 else terms[0])
 
 
 def NOT(x):
-    return _b(x) == False  # noqa: E712  (fork-free negation)
+    if not HAVE_CH:
+        return not x
+    with NoTracing():
+        k = _kind(x)
+        if k == "cb":
+            return not x
+        if k == "sb":
+            return SymbolicBool(z3.Not(x.var))
+        raise AssertionError(f"non-boolean operand ({type(x).__name__}) in NOT")
 
 
 def IMPLIES(a, b):
-    return (_b(a) == False) | _b(b)  # noqa: E712
+    return OR(NOT(a), b)
 
 
 def IFF(a, b):
-    return _b(a) == _b(b)
+    return OR(AND(a, b), AND(NOT(a), NOT(b)))
+
+
+def _int_term(x, what):
+    k = _kind(x)
+    if k == "si":
+        return x.var
+    if k == "ci":
+        return z3.IntVal(x)
+    if k == "cb":
+        return z3.IntVal(int(x))
+    if k == "sb":
+        return z3.If(x.var, 1, 0)
+    raise AssertionError(f"non-integer operand ({type(x).__name__}) in {what}")
 
 
 def COUNT(xs):
     """number of true terms, as an int expression"""
-    n = 0
-    for x in xs:
-        n = n + (_b(x) * 1)
-    return n
-
-
-
-def _ite(c, a, b):
-    """if-then-else on ints without forking and without a symbolic product:
-    builds z3.If directly when the condition is symbolic."""
-    try:
-        from crosshair.tracers import NoTracing
-        from crosshair.libimpl.builtinslib import SymbolicBool, SymbolicInt
-        import z3
-    except ImportError:
-        return a if c else b
+    xs = list(xs)
+    if not HAVE_CH:
+        return sum(1 for x in xs if x)
     with NoTracing():
-        if isinstance(c, SymbolicBool):
-            def v(x):
-                if isinstance(x, SymbolicInt):
-                    return x.var
-                if isinstance(x, SymbolicBool):
-                    return z3.If(x.var, 1, 0)
-                if type(x) in (int, bool):
-                    return z3.IntVal(int(x))
-                return None
-            av, bv = v(a), v(b)
-            if av is not None and bv is not None:
-                return SymbolicInt(z3.If(c.var, av, bv))
-            sym_fallback = True
-        else:
-            sym_fallback = False
-    if sym_fallback:
-        g = c * 1
-        return g * a + (1 - g) * b
-    return a if c else b
+        conc, terms = _bool_terms(xs, "COUNT")
+        base = sum(1 for c in conc if c)
+        if not terms:
+            return base
+        return SymbolicInt(z3.Sum([z3.If(t, 1, 0) for t in terms]) + base)
 
 
 def ITE(c, a, b):
-    return _ite(_b(c), a, b)
+    """if-then-else on ints"""
+    if not HAVE_CH:
+        return a if c else b
+    with NoTracing():
+        k = _kind(c)
+        if k == "cb":
+            return a if c else b
+        if k != "sb":
+            raise AssertionError(f"non-boolean condition ({type(c).__name__}) in ITE")
+        return SymbolicInt(z3.If(c.var, _int_term(a, "ITE"), _int_term(b, "ITE")))
 
 
 def IMAX(a, b):
-    return _ite(a >= b, a, b)
+    return ITE(a >= b, a, b)
 
 
 def IMIN(a, b):
-    return _ite(a <= b, a, b)
+    return ITE(a <= b, a, b)
 
 
 def IABS(a):
-    return _ite(a >= 0, a, 0 - a)
+    return ITE(a >= 0, a, 0 - a)
+
+
+def ISUM(xs):
+    """sum of int expressions without going through Python's + on mixed kinds"""
+    xs = list(xs)
+    if not HAVE_CH:
+        return sum(xs)
+    with NoTracing():
+        if all(_kind(x) == "ci" for x in xs):
+            return sum(xs)
+        return SymbolicInt(z3.Sum([_int_term(x, "ISUM") for x in xs]) if xs else z3.IntVal(0))
